@@ -210,24 +210,15 @@ def load_corpus():
 
 
 def check(run, replay=None):
-    proof = None
-    if os.path.exists(os.path.join(C.COQ_SRC, "Props", "Properties_C14.v")):
-        proof = C.prove("C14")
+    proof = C.prove("C14")
     drv = None
-    if os.path.exists(os.path.join(C.VERIF, "ocaml", "drv_c14.ml")) and os.path.exists(os.path.join(C.COQ_SRC, "Extract", "Extract_C14.v")):
-        try:
-            if C.COQ != C.COQ_SRC:
-                # alternate source root (mutation self-test): extract() reads the alternate Coq tree before syncing it
-                with C.locked("coq-" + os.path.basename(C.COQ)):
-                    C.coq_prepare()
-            drv = C.extract("C14", "drv_c14.ml")
-            run.cov["model_driver"] = "present"
-        except Exception as ex:   # the model does not build: nothing can be compared
-            run.cov["model_driver"] = "broken"
-            run.violation("correspondence:model-driver-build", "the extracted model / driver does not build: %s" % str(ex)[-1500:],
-                          "kind: correspondence\n%s\n" % str(ex)[-4000:], no_input=True)
-    else:
-        run.cov["model_driver"] = "missing"
+    try:
+        drv = C.extract("C14", "drv_c14.ml")
+        run.cov["model_driver"] = "present"
+    except Exception as ex:   # the model does not build: nothing can be compared
+        run.cov["model_driver"] = "broken"
+        run.violation("correspondence:model-driver-build", "the extracted model / driver does not build: %s" % str(ex)[-1500:],
+                      "kind: correspondence\n%s\n" % str(ex)[-4000:], no_input=True)
     exe = C.build_harness("hwv_memattrs", ["hwv_memattrs.c"])
     ctx = Ctx(run, exe, drv)
 
@@ -276,7 +267,7 @@ def check(run, replay=None):
         ctx.account(e)
         if e.case.meta.get("stream") in ("uninit", "dupfree") and not ctx.failures(e):
             benign += 1
-    run.cov["ub_stream_cases_without_symptom"] = benign
+    run.cov["regression_stream_cases_clean"] = benign   # streams uninit/dupfree: fixed defects c37319b, 4d6acad
     ctx.report(evs)
     return finish(run, ctx, proof)
 
